@@ -556,4 +556,86 @@ theorem merge_assoc (a b c : PDesc) (ha : WF a) (hb : WF b) (hc : WF c) :
   · rw [view_parts _ c hc, view_parts a b hb, view_parts a _ hbc, view_parts b c hc, joinP_assoc]
   · rw [view_owners _ c hab hc, view_owners a b ha hb, view_owners a _ ha hbc, view_owners b c hb hc, joinO_assoc]
 
+/-! ## convergence under permutation of the update list -/
+
+theorem foldl_wf (s : PDesc) (l : List PDesc) (hs : WF s) (hl : ∀ d ∈ l, WF d) : WF (l.foldl mergeState s) := by
+  induction l generalizing s with
+  | nil => exact hs
+  | cons d ds ih =>
+    rw [List.foldl_cons]
+    exact ih _ (mergeState_wf s d hs (hl d (by simp))) (fun x hx => hl x (by simp [hx]))
+
+theorem foldl_view_parts (s : PDesc) (l : List PDesc) (hl : ∀ d ∈ l, WF d) (k : Int) :
+    getP (l.foldl mergeState s).parts k = l.foldl (fun v d => joinP v (getP d.parts k)) (getP s.parts k) := by
+  induction l generalizing s with
+  | nil => rfl
+  | cons d ds ih =>
+    rw [List.foldl_cons, List.foldl_cons, ih _ (fun x hx => hl x (by simp [hx])), view_parts s d (hl d (by simp))]
+
+theorem foldl_view_owners (s : PDesc) (l : List PDesc) (hs : WF s) (hl : ∀ d ∈ l, WF d) (k : String) :
+    getO (l.foldl mergeState s).owners k = l.foldl (fun v d => joinO v (getO d.owners k)) (getO s.owners k) := by
+  induction l generalizing s with
+  | nil => rfl
+  | cons d ds ih =>
+    rw [List.foldl_cons, List.foldl_cons,
+        ih _ (mergeState_wf s d hs (hl d (by simp))) (fun x hx => hl x (by simp [hx])),
+        view_owners s d hs (hl d (by simp))]
+
+theorem joinP_comm (x y : Option Part)
+    (hc : ∀ a b, x = some a → y = some b → a.id = b.id ∧ a.tokens = b.tokens ∧
+      (srk (sreg a) = srk (sreg b) → sreg a = sreg b) ∧ (lrk (lreg a) = lrk (lreg b) → lreg a = lreg b)) :
+    joinP x y = joinP y x := by
+  cases x with
+  | none => cases y <;> rfl
+  | some a =>
+    cases y with
+    | none => rfl
+    | some b =>
+      obtain ⟨hid, htok, hs, hl⟩ := hc a b rfl rfl
+      simp only [joinP, combine]
+      rw [lmax_comm srk (sreg a) (sreg b) hs, lmax_comm lrk (lreg a) (lreg b) hl]
+      simp only [mk, hid, htok]
+
+theorem joinO_comm (x y : Option Owner) (hc : orkO x = orkO y → x = y) : joinO x y = joinO y x := by
+  unfold joinO
+  by_cases h1 : orkO x < orkO y
+  · rw [if_pos h1, if_neg (by omega)]
+  · by_cases h2 : orkO y < orkO x
+    · rw [if_neg h1, if_pos h2]
+    · rw [if_neg h1, if_neg h2]; exact hc (by omega)
+
+theorem coherent_owner_opt {a b : PDesc} (ha : WF a) (hb : WF b) (hc : Coherent a b) (k : String)
+    (h : orkO (getO a.owners k) = orkO (getO b.owners k)) : getO a.owners k = getO b.owners k := by
+  cases hx : getO a.owners k with
+  | none =>
+    cases hy : getO b.owners k with
+    | none => rfl
+    | some y =>
+      rw [hx, hy] at h
+      have := getO_pos hb k y (by rw [← getO_eq]; exact hy)
+      simp only [orkO, ork] at h; split at h <;> omega
+  | some x =>
+    cases hy : getO b.owners k with
+    | none =>
+      rw [hx, hy] at h
+      have := getO_pos ha k x (by rw [← getO_eq]; exact hx)
+      simp only [orkO, ork] at h; split at h <;> omega
+    | some y =>
+      rw [hx, hy] at h
+      rw [hc.owners k x y hx hy h]
+
+/-- replicas that received the same set of partition-ring updates in any order expose the same content -/
+theorem converge_perm (s : PDesc) {l l' : List PDesc} (hp : l.Perm l') (hs : WF s) (hl : ∀ d ∈ l, WF d)
+    (hc : ∀ x ∈ l, ∀ y ∈ l, Coherent x y) : Equiv (l.foldl mergeState s) (l'.foldl mergeState s) := by
+  have hl' : ∀ d ∈ l', WF d := fun d hd => hl d (hp.mem_iff.2 hd)
+  refine ⟨fun k => ?_, fun k => ?_⟩
+  · rw [foldl_view_parts s l hl, foldl_view_parts s l' hl']
+    apply List.Perm.foldl_eq' hp
+    intro x hx y hy z
+    rw [joinP_assoc, joinP_assoc, joinP_comm _ _ (fun a b ha hb => (hc x hx y hy).parts k a b ha hb)]
+  · rw [foldl_view_owners s l hs hl, foldl_view_owners s l' hs hl']
+    apply List.Perm.foldl_eq' hp
+    intro x hx y hy z
+    rw [joinO_assoc, joinO_assoc, joinO_comm _ _ (coherent_owner_opt (hl x hx) (hl y hy) (hc x hx y hy) k)]
+
 end PfC03P
